@@ -24,6 +24,13 @@ def main():
         shutil.copy(os.path.join(src, "demo.rs"), os.path.join(wt, "tests", "demo.rs"))
         feat = " --features serde,serde_repr" if 'cfg(feature = "serde")' in open(os.path.join(src, "demo.rs")).read() else ""
         res["demo_features"] = feat.strip()
+        if "serde_json" in open(os.path.join(src, "demo.rs")).read():
+            # the demo wants serde_json (cached in the registry, not a dev-dependency of the crate): add it in the scratch worktree only
+            ct = os.path.join(wt, "Cargo.toml")
+            t = open(ct).read()
+            t = t.replace("[dev-dependencies]", '[dev-dependencies]\nserde_json = "1"', 1)
+            open(ct, "w").write(t)
+            res["demo_extra_dev_dependency"] = "serde_json"
         rc, out = sh("cargo test --offline --test demo" + feat + " 2>&1 | tail -5", wt)
         res["demo_without_patch"] = "pass" if re.search(r"test result: ok\. [1-9]", out) else "FAIL"
         rc, out = sh("git apply %s" % os.path.join(src, "patch.diff"), wt)
@@ -31,6 +38,7 @@ def main():
         rc, out = sh("cargo test --offline --test demo" + feat + " 2>&1 | tail -8", wt)
         res["demo_with_patch"] = "fail" if re.search(r"test result: FAILED|error", out) else "PASS"
         os.remove(os.path.join(wt, "tests", "demo.rs"))
+        sh("git checkout -- Cargo.toml Cargo.lock", wt)
         rc, out = sh("cargo test --offline 2>&1 | grep 'test result'", wt)
         counts = re.findall(r"test result: (\w+)\. (\d+) passed; (\d+) failed", out)
         res["suite_with_patch"] = counts
